@@ -11,7 +11,7 @@ use crate::runner::{Ctx, Failure, PropDef, Verdict};
 use crate::simnet::app::*;
 use crate::simnet::exec::{shared, Exec, RunEnd, Shared, Signal, Spawner, Style};
 use crate::simnet::peer::{self, PeerOp, RawPeer};
-use crate::simnet::{Net, NetEvent, Side};
+use crate::simnet::{Net, NetEvent, Side, UNLIMITED};
 use crate::tape::{prf_cells, Odometer, Tape};
 
 pub static PROP: PropDef = PropDef {
@@ -158,11 +158,14 @@ fn ops_json(ops: &[SOp]) -> Value {
     json!(ops.iter().map(|o| format!("{o:?}")).collect::<Vec<_>>())
 }
 
-pub fn run_server(ops: &[SOp], style: Style, sched: &[u16], ctx: &mut Ctx) -> Verdict {
+/// `credit`: send credit every stream of the server starts with (GOAWAY and responses are then written in pieces, as
+/// grants arrive)
+pub fn run_server(ops: &[SOp], style: Style, sched: &[u16], credit: u64, ctx: &mut Ctx) -> Verdict {
     ctx.eval();
     fastrand::seed(17);
     let net = Net::new();
     net.set_raw(Side::Client);
+    net.lock().default_credit[Side::Server.idx()] = credit;
     let o: Shared<SObs> = shared(SObs::default());
     let cmds: Shared<VecDeque<usize>> = shared(VecDeque::new());
     let cmd_sig = Signal::new();
@@ -220,7 +223,7 @@ pub fn run_server(ops: &[SOp], style: Style, sched: &[u16], ctx: &mut Ctx) -> Ve
     let rejected_reset: Vec<u64> = events.iter().filter_map(|(_, e)| if let NetEvent::Reset { side: Side::Server, stream, code } = e { (*code == code::REQUEST_REJECTED).then_some(*stream) } else { None }).collect();
     let closes = net.close_calls(Side::Server);
     let case = || {
-        json!({"kind": "server", "ops": ops_json(ops), "style": format!("{style:?}"), "sched": sched, "goaways": goaways, "accepted": obs.accepted, "taken": taken,
+        json!({"kind": "server", "ops": ops_json(ops), "style": format!("{style:?}"), "sched": sched, "credit": if credit == UNLIMITED { -1 } else { credit as i64 }, "goaways": goaways, "accepted": obs.accepted, "taken": taken,
                "rejected_stop": rejected_stop, "rejected_reset": rejected_reset, "accept_end": format!("{:?}", obs.accept_end), "closes": format!("{closes:?}")})
     };
     if end == RunEnd::StepBound {
@@ -293,6 +296,9 @@ pub fn run_server(ops: &[SOp], style: Style, sched: &[u16], ctx: &mut Ctx) -> Ve
     // ---- classification
     if nshut >= 2 {
         ctx.class("repeated_shutdown");
+    }
+    if credit != UNLIMITED && !goaways.is_empty() {
+        ctx.class("goaway_written_under_back_pressure");
     }
     if !rejected_reset.is_empty() {
         ctx.class("server_rejected_stream");
@@ -473,9 +479,10 @@ fn exhaustive(ctx: &mut Ctx, shard: usize, nshards: usize) -> Verdict {
             if !mine {
                 return Ok(());
             }
-            run_server(&ops, Style::Eager, &[], ctx)?;
+            run_server(&ops, Style::Eager, &[], UNLIMITED, ctx)?;
             let cells = prf_cells(i as u64, 100);
-            run_server(&ops, Style::Random, &cells, ctx)
+            run_server(&ops, Style::Random, &cells, UNLIMITED, ctx)?;
+            run_server(&ops, Style::Random, &cells, 3, ctx)
         });
         match r {
             None => break,
@@ -525,8 +532,14 @@ fn run_tape(tape: &[u16], ctx: &mut Ctx) -> Verdict {
     }
     let ops = gen_server_ops(&mut t, 20, false);
     let style = [Style::Eager, Style::Tiny, Style::Random][t.pick(3)];
+    let credit = match t.pick(6) {
+        0 | 1 | 2 => UNLIMITED,
+        3 => 0,
+        4 => t.int(1, 12),
+        _ => t.int(1, 300),
+    };
     let sched: Vec<u16> = tape[t.position().min(tape.len())..].to_vec();
-    run_server(&ops, style, &sched, ctx)
+    run_server(&ops, style, &sched, credit, ctx)
 }
 
 fn run_direct(d: &Value, ctx: &mut Ctx) -> Verdict {
@@ -553,7 +566,7 @@ fn run_direct(d: &Value, ctx: &mut Ctx) -> Verdict {
                         .collect()
                 })
                 .unwrap_or_default();
-            run_server(&ops, style, &sched, ctx)
+            run_server(&ops, style, &sched, d["credit"].as_i64().map(|c| if c < 0 { UNLIMITED } else { c as u64 }).unwrap_or(UNLIMITED), ctx)
         }
         Some("client") => {
             let ids: Vec<u64> = d["ids"].as_array().map(|a| a.iter().filter_map(|x| x.as_str().and_then(|s| s.parse().ok())).collect()).unwrap_or_default();
